@@ -310,7 +310,7 @@ pub fn check(s: &'static dyn Proto, c: &Case, st: &mut Stats, _k: &KnownFindings
 
 pub const BUDGET: Budget = Budget {
     quick: (900, 300, 100),
-    thorough: (3000, 800, 250),
+    thorough: (12000, 3000, 1000),
     shrink: 200,
 };
 
